@@ -111,7 +111,7 @@ def handle? (st : DriverState) (line : String) : Option (DriverState × String) 
     | some E =>
       let (cs, table) := decChars chars
       let K := classOf table
-      let net : Nat → Env := fun k' => if k' = E.G.k then E else driverEnv { E.G with k := k' }
+      let net : Nat → Env := driverNet E.G
       let out := match Cli.analyse net K (ext == "1") st.ctxSets cs with
         | .message e => "msg " ++ errName e
         | .panic _ => "panic"
@@ -126,7 +126,7 @@ def handle? (st : DriverState) (line : String) : Option (DriverState × String) 
     | some E =>
       let (cs, table) := decChars chars
       let K := classOf table
-      let net : Nat → Env := fun k' => if k' = E.G.k then E else driverEnv { E.G with k := k' }
+      let net : Nat → Env := driverNet E.G
       let out := match Cli.analyse net K (ext == "1") st.ctxSets cs with
         | .message e => "msg " ++ errName e
         | .panic _ => "panic"
